@@ -67,6 +67,7 @@ type lockCfg struct {
 	JumpTime       bool // occasional large block-time steps
 	TargetPunished bool // lock/unlock requests prefer jailed and tombstoned validators
 	EvidenceAges   bool // evidence height and time ages are drawn independently around the limits
+	HugeWeights    bool // token weights up to 2^62 (total voting power must still stay acceptable)
 	Protect0       bool // validator 0 (the node's own) is never punished or pushed below a threshold
 }
 
@@ -438,6 +439,9 @@ func (h *lockHist) gen() *blockOps {
 	if roll(w.Weight) {
 		tok := h.tokens[h.r.Intn(len(h.tokens))]
 		wt := []uint64{0, 1, 2, 3, 5, 7}[h.r.Intn(6)]
+		if h.cfg.HugeWeights && h.r.Intn(3) == 0 {
+			wt = []uint64{1_000_000, 1_000_000_000, 1 << 32, 1 << 40, 1 << 62}[h.r.Intn(5)]
+		}
 		if tok == tokBTC && h.cfg.Protect0 && wt == 0 {
 			wt = 1
 		}
